@@ -8,6 +8,7 @@ independent of the contracts) is false on the real code.
   --input <json>          re-run one recorded history; exit 1 if the oracle still fails
 """
 import json
+import logging
 import os
 import random
 import sys
@@ -18,6 +19,7 @@ import numpy as np
 from treadmill import scheduler as S
 
 S.DIMENSION_COUNT = 3
+logging.disable(logging.CRITICAL)
 
 
 class Clock:
